@@ -508,3 +508,6 @@ func (s *Sim) TaskState(name string) string {
 	}
 	return "gone"
 }
+
+// NoStalls switches stall decisions off for the rest of the run.
+func (s *Sim) NoStalls() { s.cfg.StallChoices = nil }
